@@ -21,7 +21,8 @@ META = dict(
 )
 
 GEN = {
-    'Gen_proto': dict(src='private/http_protocol.h', functions=[('separator', 'g_separator'), ('xdigit', 'g_xdigit1')]),
+    'Gen_C01': dict(src='private/http_protocol.h', functions=[('separator', 'g_separator'), ('xdigit', 'g_xdigit1'),
+                                                              ('ascii_to_lower', 'g_ascii_to_lower')]),
 }
 
 SKIP_ENV = (b'SERVER_', b'REMOTE_', b'GATEWAY_INTERFACE', b'SCGI', b'CONTENT_LENGTH')
@@ -97,14 +98,22 @@ def canon_impl_line(case, out):
     return ' | '.join(items)
 
 
+# what the client sees for the model's non-request outcomes: protocol violation = connection dropped without a reply
+MODEL_TAGS = {'ERR': 'NOREPLY', 'BAD400': 'STATUS400', 'NEG400': 'STATUS400', 'BIG413': 'STATUS413'}
+MOUNTED = (b'/sync', b'/async')
+
+
 def canon_model_line(out):
     items = []
     for it in out.split(' | '):
         if not it.startswith('OK '):
             if it != 'END':
-                items.append(it)
+                items.append(MODEL_TAGS.get(it, it))
             continue
         f = dict(x.split('=', 1) for x in it[3:].split(';'))
+        if unhx(f['S']) not in MOUNTED:
+            items.append('STATUS404')       # no application is mounted for this script name
+            continue
 
         def pl(s):
             return [] if s == '-' else [tuple(unhx(y) for y in x.split(':')) for x in s.split(',')]
@@ -315,6 +324,133 @@ def gen_cases(ctx):
             encs = [encode(rng, r, proto, True) for r in (r1, r2, r1)]
             exp = [expect_of(r) for r in (r1, r2, r1)]
             cases.append(case_line(proto, [[d] for d, _ in encs], exp, [rd for _, rd in encs]))
+    cases += gen_boundary(ctx)
+    cases += gen_malformed(ctx)
+    return cases
+
+
+def pad_to(build, target, lo=0, hi=40000):
+    """smallest k such that len(build(k)) == target (build is monotone in k); None if unreachable"""
+    for k in range(lo, hi):
+        n = len(build(k))
+        if n == target:
+            return k
+        if n > target:
+            return None
+    return None
+
+
+def gen_boundary(ctx):
+    """size limits and case splits of the readers: SCGI header block 16384/16385, FastCGI PARAMS 16383/16384, HTTP 16384 byte
+    header cap (tested only when a read ends inside the headers), script name matched on a path component boundary only"""
+    rng = ctx.rng
+    cases = []
+    for _ in range(ctx.scale(2, 10)):
+        # --- script name prefix that does not end on a component boundary: no application
+        r = rnd_req(rng)
+        r.headers = r.headers[:2]
+        suffix = rng.choice([b'x', b'.', b'%2f', b'-', b'0/a', b'x/sync'])
+        good = rng.random() < 0.3
+        data = enc_http(Req(r.method, r.script + (b'' if good else suffix), r.path, r.query, r.headers, r.body, True, r.content_type, False))
+        exp = [expect_of(r)] if good else ['!STATUS404']
+        for m in ('whole', 'special'):
+            cases.append(case_line('http', [segment(rng, data, m)], exp, ['R']))
+        # --- SCGI: header block of exactly 16384 bytes is accepted, 16385 is a protocol violation
+        for target, ok in ((16384, True), (16385, False), (16383, True)):
+            r = rnd_req(rng)
+            r.headers = r.headers[:1]
+            base = list(r.headers)
+
+            def blob(k):
+                r.headers = base + [(b'X-Pad', b'p' * k)]
+                d = enc_scgi(r)
+                return d[d.index(b':') + 1: len(d) - len(r.body) - 1]
+            k = pad_to(blob, target, 15000)
+            if k is None:
+                continue
+            blob(k)
+            data = enc_scgi(r)
+            segs = segment(rng, data, rng.choice(['whole', 'random']))
+            cases.append('scgi ' + ' '.join('S:' + hx(x) for x in segs) + ' E' + (' X:' + hx(json.dumps([expect_of(r)]).encode()) if ok else ''))
+        # --- FastCGI: PARAMS stream of 16383 bytes is accepted in any layout, 16384 is a protocol violation
+        for target, ok in ((16383, True), (16384, False)):
+            r = rnd_req(rng)
+            r.headers = r.headers[:1]
+            base = list(r.headers)
+
+            def blob(k):
+                r.headers = base + [(b'X-Pad', b'p' * k)]
+                env = cgi_env(r, 'fcgi')
+                env.setdefault(b'CONTENT_LENGTH', b'0')
+                return fcgi_pairs(sorted(env.items()))
+            k = pad_to(blob, target, 15000)
+            if k is None:
+                continue
+            blob(k)
+            pc = sorted(rng.sample(range(1, target), rng.randint(0, 4)))
+            data = enc_fcgi(r, rid=1, keep_conn=False, params_cuts=pc, stdin_cuts=[], pads=lambda: rng.choice([0, 3, 255]))
+            segs = segment(rng, data, rng.choice(['whole', 'random']))
+            cases.append('fcgi ' + ' '.join('S:' + hx(x) for x in segs) + ' R' + (' X:' + hx(json.dumps([expect_of(r)]).encode()) if ok else ''))
+        # --- HTTP: the 16384 byte cap is tested when a read ends inside the headers: total 16384 passes, 16385 fails
+        for total2, ok in ((16384, True), (16385, False), (16383, True)):
+            r = rnd_req(rng)
+            r.headers = [(b'X-Pad', b'p' * 16500)] + r.headers[:1]
+            data = enc_http(r)
+            a = rng.randint(1, 16000)
+            segs = [data[:a], data[a:total2], data[total2:]]
+            cases.append('http ' + ' '.join('S:' + hx(x) for x in segs) + ' R')
+        # --- HTTP: header block of exactly 16384 / 16385 / 20000 bytes delivered in reads that never stop inside it above the cap
+        for hb in (16384, 16385, 20000):
+            r = rnd_req(rng)
+            r.headers = r.headers[:1]
+            base = list(r.headers)
+
+            def hdr(k):
+                r.headers = [(b'X-Pad', b'p' * k)] + base
+                d = enc_http(r)
+                return d[:len(d) - len(r.body)]
+            k = pad_to(hdr, hb, 15000)
+            if k is None:
+                continue
+            hdr(k)
+            data = enc_http(r)
+            a = rng.randint(1, 16000)
+            cases.append('http S:' + hx(data[:a]) + ' S:' + hx(data[a:]) + ' R' + (' X:' + hx(json.dumps([expect_of(r)]).encode()) if hb <= 16384 else ''))
+    return cases
+
+
+def gen_malformed(ctx):
+    """a small malformed stream aimed at the error branches of the three readers (no expectation: model = implementation only);
+    robustness against arbitrary malformed input is property C02"""
+    rng = ctx.rng
+    cases = []
+    H = [b'GET /sync/a HTTP/1.1\r\nBad header\r\n\r\n', b'GET /sync/a HTTP/1.1\r\n: v\r\n\r\n', b'GET /sync/a HTTP/1.1\r\nA: b\rX\r\n\r\n',
+         b'GET /sync/a HTTP/1.1\r\nA: "\\\xff"\r\n\r\n', b'GET /sync/a HTTP/1.1\r\nA: (c\\\x7f)\r\n\r\n', b'GET /sync/a\r\n\r\n', b'GET\r\n\r\n',
+         b'G@T /sync/a HTTP/1.1\r\n\r\n', b' /sync/a HTTP/1.1\r\n\r\n', b'GET sync/a HTTP/1.1\r\n\r\n', b'\r\n', b'\rX', b'GET /sync/a HTTP/1.1\r\nA : b\r\n\r\n',
+         b'GET /sync/a HTTP/1.1\r\nA: "q\r\n x" (c\r\n y)\r\n\r\n', b'GET /sync/a HTTP/1.1\r\nContent-Length: -5\r\n\r\n',
+         b'GET /sync/a?x=1&&y=2&z HTTP/1.1\r\n\r\n', b'GET /sync/a?=1 HTTP/1.1\r\n\r\n', b'POST /sync/a HTTP/1.1\r\nContent-Length: 2000000\r\n\r\n']
+    for d in H:
+        for m in ('whole', 'bytes', 'random'):
+            cases.append('http ' + ' '.join('S:' + hx(x) for x in segment(rng, d, m)) + ' R')
+    blob = b'CONTENT_LENGTH\x000\x00SCGI\x001\x00REQUEST_METHOD\x00GET\x00SCRIPT_NAME\x00/sync\x00PATH_INFO\x00/a\x00'
+    S = [b'%d:' % len(blob) + blob + b';', b'%d;' % len(blob) + blob + b',', b'00000000000000070:' + blob + b',', b'-1:' + blob + b',',
+         b'16385:' + blob + b',', b'1:,' + blob, b'%d:' % (len(blob) - 1) + blob + b',', b' %d:' % len(blob) + blob + b',',
+         b'+%d:' % len(blob) + blob + b',', b'%d:' % (len(blob) + 7) + blob + b'ODDKEY\x00,']
+    for d in S:
+        for m in ('whole', 'random'):
+            cases.append('scgi ' + ' '.join('S:' + hx(x) for x in segment(rng, d, m)) + ' E')
+    r = Req(b'POST', b'/sync', b'/a', None, [], b'abc', True, b'text/plain', False)
+    good = enc_fcgi(r)
+    F = [bytes([2]) + good[1:],                                              # wrong version
+         good[:8 + 8] + fcgi_rec(5, 1, b'') + good[16:],                     # STDIN where PARAMS are expected
+         good[:16] + fcgi_rec(4, 2, b'\x01\x01ab') + good[16:],              # PARAMS of another request id
+         enc_fcgi(Req(b'POST', b'/sync', b'/a', None, [], b'abc', True, None, False)).replace(b'\x0e\x01CONTENT_LENGTH3', b'\x0e\x01CONTENT_LENGTH2'),
+         good[:len(good) - 8],                                               # no STDIN end record: completed by EOF
+         fcgi_rec(1, 1, struct.pack('>HB4x', 1, 0)) + good[16:],             # BEGIN_REQUEST body of 7 bytes
+         good[:16] + fcgi_rec(4, 1, b'\x05\x01ab') + fcgi_rec(4, 1, b'') + fcgi_rec(5, 1, b'')]   # truncated name-value pair
+    for d in F:
+        for m in ('whole', 'random'):
+            cases.append('fcgi ' + ' '.join('S:' + hx(x) for x in segment(rng, d, m)) + ' H R')
     return cases
 
 
@@ -331,6 +467,10 @@ def oracle(case, out):
     if len(got) != len(exp):
         return ('request-count', 'connection delivered %d answers for %d requests: %s' % (len(got), len(exp), ' | '.join(g[:60] for g in got)))
     for i, (g, e) in enumerate(zip(got, exp)):
+        if e.startswith('!'):
+            if g != e[1:]:
+                return ('request-not-faithful-' + proto, 'request %d: expected %s, the client observed %s' % (i + 1, e[1:], g[:60]))
+            continue
         if g != 'OK ' + e:
             gf = dict(p.split('=', 1) for p in g[3:].split(';')) if g.startswith('OK ') else {}
             ef = dict(p.split('=', 1) for p in e.split(';'))
@@ -338,7 +478,7 @@ def oracle(case, out):
             return ('request-not-faithful-' + proto, 'request %d of the connection was not delivered as encoded; differing fields: %s' % (i + 1, bad))
     # handler ran exactly once per request
     m = re.search(r'calls=(\d+),(\d+),(\d+)', out)
-    if m and int(m.group(1)) + int(m.group(2)) != len(exp):
+    if m and int(m.group(1)) + int(m.group(2)) != sum(1 for e in exp if not e.startswith('!')):
         return ('handler-count', 'handlers ran %s times for %d requests' % (m.group(0), len(exp)))
     return None
 
